@@ -147,13 +147,15 @@ func (s *fakeSource) Ack(_ context.Context, ps []opencdc.Position) error {
 	return nil
 }
 
-func lookupAct(as []Act, idx int) string {
+func lookupAct(as []Act, idx int) string { return lookupActN(as, idx).Act }
+
+func lookupActN(as []Act, idx int) Act {
 	for _, a := range as {
 		if a.Call == idx {
-			return a.Act
+			return a
 		}
 	}
-	return ""
+	return Act{}
 }
 
 // ---------- fake destination ----------
@@ -222,7 +224,8 @@ func (d *fakeDest) Ack(context.Context) ([]connector.DestinationAck, error) {
 	if d.dlq {
 		ek = "dlqack"
 	}
-	act := lookupAct(d.spec.Acts, idx)
+	actN := lookupActN(d.spec.Acts, idx)
+	act, ai := actN.Act, actN.N
 	switch act {
 	case "empty":
 		d.l.add(Event{K: ek})
@@ -250,19 +253,28 @@ func (d *fakeDest) Ack(context.Context) ([]connector.DestinationAck, error) {
 	junk := opencdc.Position("9.9.9")
 	switch act {
 	case "extra":
-		acks = append(acks, connector.DestinationAck{Position: junk})
+		for i := 0; i <= ai; i++ {
+			acks = append(acks, connector.DestinationAck{Position: junk})
+		}
 	case "wrongpos":
-		if len(acks) > 0 {
-			acks[0].Position = junk
+		if ai < len(acks) {
+			acks[ai].Position = junk
 		}
 	case "dup":
-		if len(acks) > 0 {
-			acks = append([]connector.DestinationAck{acks[0]}, acks...)
+		if ai < len(acks) {
+			out := append([]connector.DestinationAck{}, acks[:ai+1]...)
+			acks = append(out, acks[ai:]...)
 		}
 	case "swap":
-		if len(acks) > 1 {
-			acks[0], acks[1] = acks[1], acks[0]
+		if ai+1 < len(acks) {
+			acks[ai], acks[ai+1] = acks[ai+1], acks[ai]
 		}
+	case "short":
+		k := len(acks) - (ai + 1)
+		if k < 0 {
+			k = 0
+		}
+		acks = acks[:k]
 	}
 	// a plugin that sends more acks than it took records for has, as far as the
 	// engine can tell, confirmed that many records: it drops them from its queue too
